@@ -14,7 +14,7 @@ PLAN = {
 }
 BUDGET = {"quick": 50, "thorough": 900}
 RULE = (
-    "1-4 routers with seeded (name, queue) registrations from small alphabets (3 names x 2 queues: overrides inside a router, "
+    "1-4 routers with seeded (name, queue) registrations from small alphabets (3 names, one a prefix of another, x 2 queues: overrides inside a router, "
     "the same name on two queues, shared queues), 1-2 workers built from subsets of the routers on the same or different nodes, "
     "3-14 jobs (a quarter of them deferred until one common instant) whose (name, queue) match a running worker, only another worker, or nobody, interleaved in shared queues (no "
     "TTL). Each registered function is a distinct marker. Oracle: worker.actors == right-biased union of its routers; a job is "
@@ -25,7 +25,7 @@ RULE = (
     "distinct = interleaving digest."
 )
 SHRINK_LISTS = ("jobs", "routers")
-NAMES = ["n1", "n2", "n3"]
+NAMES = ["n1", "n1_x", "n2"]  # one name is a prefix of another one
 QUEUES = ["qa", "qb"]
 
 
